@@ -1051,3 +1051,263 @@ Qed.
 
 (* the full state invariant *)
 Definition good (s : st) : Prop := inv s /\ ksorted (files s) /\ disk_ok s.
+
+(* ====================================================================== *)
+(* F. reopen                                                               *)
+(* ====================================================================== *)
+
+Definition proj (e : key * (N * N)) : key * N := (fst e, fst (snd e)).
+Definition emt (e : key * (N * N)) : N := snd (snd e).
+Definition keep (c : N) (e : key * (N * N)) : bool := negb (is_temp (fst e)) && (fst (snd e) <=? c).
+Definition nkeep (c : N) (e : key * (N * N)) : bool := negb (keep c e).
+
+Lemma keys_proj l : keys (map proj l) = keys l.
+Proof. unfold keys. rewrite map_map. reflexivity. Qed.
+
+Definition removed (c : N) (preF done : list (key * (N * N))) (k : key) : Prop :=
+  In k (keys preF) \/ In k (keys (filter (nkeep c) done)).
+
+(* state of init after the entries [done] of the mtime-sorted listing have been walked *)
+Definition J (c : N) (fs0 done : list (key * (N * N))) (s : st) : Prop :=
+  cap s = c /\ pending_size s = 0 /\ inv s /\
+  exists preF F', filter (keep c) done = preF ++ F' /\ index s = map proj F' /\
+    forall k, (removed c preF done k -> alookup k (files s) = None) /\
+              (~ removed c preF done k -> alookup k (files s) = alookup k fs0).
+
+Lemma In_keys_inv {V} k (l : list (key * V)) : In k (keys l) -> exists v, In (k, v) l.
+Proof. unfold keys. rewrite in_map_iff. intros [[k' v] [<- H]]. eauto. Qed.
+
+Lemma In_keys {V} k (v : V) l : In (k, v) l -> In k (keys l).
+Proof. intros H. apply (in_map fst) in H. exact H. Qed.
+
+Lemma J_step c fs0 done e s :
+  J c fs0 done s -> ~ In (fst e) (keys done) -> J c fs0 (done ++ [e]) (init_add s e).
+Proof.
+  intros (Hc & Hp & Hi & preF & F' & HF & HI & Hf) Hnew. destruct e as [k [sz mt]]. simpl in Hnew.
+  unfold init_add.
+  assert (Hdrop : forall s', cap s' = cap s -> pending_size s' = pending_size s -> inv s' ->
+            index s' = index s -> files s' = aremove k (files s) ->
+            negb (is_temp k) && (sz <=? c) = false -> J c fs0 (done ++ [(k, (sz, mt))]) s').
+  { intros s' E1 E2 E3 E4 E5 Hk. split; [congruence|]. split; [congruence|]. split; [auto|].
+    exists preF, F'. rewrite filter_app. simpl. unfold keep at 2. simpl. rewrite Hk, app_nil_r.
+    split; auto. split; [congruence|]. intros k0. rewrite E5. unfold removed.
+    rewrite filter_app. simpl. unfold nkeep at 2 4, keep. simpl. rewrite Hk. simpl.
+    rewrite keys_app, in_app_iff. simpl.
+    destruct (key_eq_dec k0 k) as [->|Hne].
+    - split; [intros _; apply alookup_aremove_eq | intros H; exfalso; apply H; auto].
+    - rewrite alookup_aremove_neq by auto. destruct (Hf k0) as [Hf1 Hf2]. unfold removed in *. split; intros H.
+      + apply Hf1. intuition congruence.
+      + apply Hf2. intuition. }
+  destruct (is_temp k) eqn:Et.
+  { apply Hdrop; auto. }
+  destruct (negb (sz <=? cap s)) eqn:Es.
+  { apply Hdrop; auto. simpl. rewrite <- Hc. destruct (sz <=? cap s); auto; discriminate. }
+  assert (Hk : negb (is_temp k) && (sz <=? c) = true).
+  { rewrite Et. simpl. rewrite <- Hc. destruct (sz <=? cap s); auto. }
+  destruct (make_space s sz) as [ok s1] eqn:MS.
+  pose proof MS as MS2. apply inv_make_space in MS2 as [Hi1 Hb]; auto.
+  apply make_space_spec in MS as (pre & idx' & m' & -> & Hidx & _ & _ & Hok & _).
+  assert (ok = true) as ->. { apply Hok; [apply Hi|]. rewrite Hp. lia. }
+  pose proof (inv_lru_insert _ k sz Hi1 (Hb eq_refl)) as Hi2.
+  rewrite lru_insert_inv_eq in * by (auto; apply Hb; auto). simpl in *.
+  rewrite HI in Hidx. apply map_eq_app in Hidx as (F1 & F2 & -> & <- & <-).
+  assert (Hnk : alookup k (map proj F2) = None).
+  { apply alookup_None. rewrite keys_proj. intros Hin. apply Hnew.
+    apply In_keys_inv in Hin as [v Hin]. apply (In_keys k v).
+    assert (Hin2 : In (k, v) (filter (keep c) done)) by (rewrite HF, !in_app_iff; auto).
+    apply filter_In in Hin2. tauto. }
+  rewrite aremove_notin in * by auto.
+  split; [auto|]. split; [auto|]. split; [exact Hi2|].
+  exists (preF ++ F1), (F2 ++ [(k, (sz, mt))]). split; [|split].
+  - rewrite filter_app. simpl. unfold keep at 2. simpl. rewrite Hk, HF, <- !app_assoc. reflexivity.
+  - rewrite map_app. reflexivity.
+  - intros k0. unfold removed. rewrite filter_app. simpl. unfold nkeep at 2 4, keep. simpl. rewrite Hk. simpl.
+    rewrite app_nil_r, keys_app, in_app_iff, keys_proj.
+    destruct (Hf k0) as [Hf1 Hf2]. unfold removed in *.
+    destruct (in_dec key_eq_dec k0 (keys F1)) as [Hin|Hin].
+    + rewrite alookup_rmkeys_in by auto. split; auto. intros H; exfalso; apply H; auto.
+    + rewrite alookup_rmkeys_notin by auto. split; intros H.
+      * apply Hf1. tauto.
+      * apply Hf2. tauto.
+Qed.
+
+Lemma J_fold c fs0 : forall todo done s,
+  J c fs0 done s -> NoDup (keys (done ++ todo)) -> J c fs0 (done ++ todo) (fold_left init_add todo s).
+Proof.
+  induction todo as [|e todo IH]; intros done s HJ Hnd; simpl.
+  - rewrite app_nil_r; auto.
+  - replace (done ++ e :: todo) with ((done ++ [e]) ++ todo) in * by (rewrite <- app_assoc; auto).
+    apply IH; auto. apply J_step; auto.
+    rewrite <- app_assoc, keys_app in Hnd. simpl in Hnd. apply NoDup_remove_2 in Hnd.
+    rewrite in_app_iff in Hnd. tauto.
+Qed.
+
+Lemma ins_mtime_perm e l : Permutation (ins_mtime e l) (e :: l).
+Proof.
+  induction l as [|e' r IH]; simpl; auto. destruct (snd (snd e) <? snd (snd e')); auto.
+  eapply perm_trans; [apply perm_skip, IH | apply perm_swap].
+Qed.
+
+Lemma sort_mtime_perm l : Permutation (sort_mtime l) l.
+Proof.
+  induction l; simpl; auto. eapply perm_trans; [apply ins_mtime_perm | apply perm_skip, IHl].
+Qed.
+
+Lemma ins_mtime_ssorted e l :
+  ssorted (map emt l) -> ~ In (emt e) (map emt l) -> ssorted (map emt (ins_mtime e l)).
+Proof.
+  induction l as [|e' r IH]; simpl; intros Hs Hn.
+  - auto.
+  - destruct Hs as [H1 H2]. change (snd (snd e)) with (emt e). change (snd (snd e')) with (emt e').
+    destruct (emt e <? emt e') eqn:E; simpl.
+    + split; [|split; auto]. constructor; [lia|]. rewrite Forall_forall in *. intros x Hx. apply H1 in Hx. lia.
+    + assert (emt e' < emt e) by (assert (emt e' <> emt e) by tauto; lia).
+      split; [|apply IH; tauto].
+      rewrite Forall_forall in *. intros x Hx. apply in_map_iff in Hx as (y & <- & Hy).
+      apply (Permutation_in _ (ins_mtime_perm e r)) in Hy as [<-|Hy]; auto. apply H1, in_map; auto.
+Qed.
+
+Lemma sort_mtime_ssorted l : NoDup (map emt l) -> ssorted (map emt (sort_mtime l)).
+Proof.
+  induction l as [|e l IH]; simpl; auto. intros H; inversion H; subst.
+  apply ins_mtime_ssorted; auto. intros Hin. apply H2.
+  eapply Permutation_in; [apply Permutation_map, sort_mtime_perm | exact Hin].
+Qed.
+
+Lemma NoDup_map_transfer {A B C} (f : A -> B) (g : A -> C) l :
+  NoDup (map g l) -> (forall x y, In x l -> In y l -> f x = f y -> g x = g y) -> NoDup (map f l).
+Proof.
+  induction l as [|a l IH]; simpl; [constructor|]. intros H Hfg; inversion H; subst. constructor.
+  - intros Hin. apply in_map_iff in Hin as (y & Hy1 & Hy2). apply H2.
+    rewrite <- (Hfg y a); auto. apply in_map; auto.
+  - apply IH; auto.
+Qed.
+
+Lemma NoDup_map_filter {A B} (f : A -> B) p l : NoDup (map f l) -> NoDup (map f (filter p l)).
+Proof.
+  induction l as [|a l IH]; simpl; auto. intros H; inversion H; subst. destruct (p a); simpl; auto.
+  constructor; auto. intros Hin. apply H2. apply in_map_iff in Hin as (y & Hy1 & Hy2).
+  apply filter_In in Hy2 as [Hy2 _]. rewrite <- Hy1. apply in_map; auto.
+Qed.
+
+Lemma ssorted_map_filter {A} (f : A -> N) p l : ssorted (map f l) -> ssorted (map f (filter p l)).
+Proof.
+  induction l as [|a l IH]; simpl; auto. intros [H1 H2]. destruct (p a); simpl; auto. split; auto.
+  rewrite Forall_forall in *. intros x Hx. apply H1. apply in_map_iff in Hx as (y & <- & Hy).
+  apply filter_In in Hy as [Hy _]. apply in_map; auto.
+Qed.
+
+Lemma clock_init_add s e : clock (init_add s e) = clock s.
+Proof.
+  destruct e as [k [sz mt]]. unfold init_add. destruct (is_temp k); auto. destruct (negb (sz <=? cap s)); auto.
+  destruct (make_space s sz) as [ok s1] eqn:MS. apply make_space_spec in MS as (pre & idx' & m' & -> & _).
+  destruct ok; auto. unfold lru_insert. destruct (lru_trim _ _ _); auto.
+Qed.
+
+Lemma clock_reopen s c : clock (reopen s c) = clock s.
+Proof.
+  unfold reopen.
+  assert (G : forall l s0, clock (fold_left init_add l s0) = clock s0).
+  { induction l; simpl; auto. intros s0. rewrite IHl. apply clock_init_add. }
+  rewrite G. reflexivity.
+Qed.
+
+(* what a directory must satisfy: a canonical listing, distinct mtimes, none in the future *)
+Definition dir_ok (s : st) : Prop := ksorted (files s) /\ mt_le s /\ mt_inj s.
+
+Lemma reopen_J s c : ksorted (files s) -> J c (files s) (sort_mtime (files s)) (reopen s c).
+Proof.
+  intros Hks. unfold reopen. apply (J_fold c (files s) (sort_mtime (files s)) []).
+  - split; [reflexivity|]. split; [reflexivity|]. split.
+    + split; [unfold acct|unfold hwf]; simpl.
+      * repeat split; try constructor; lia.
+      * split; [constructor|tauto].
+    + exists [], []. simpl. split; auto. split; auto. intros k. unfold removed. simpl. tauto.
+  - simpl. eapply Permutation_NoDup; [apply Permutation_map, Permutation_sym, sort_mtime_perm|].
+    apply ksorted_NoDup; auto.
+Qed.
+
+Lemma reopen_disk_ok s c : dir_ok s -> disk_ok (reopen s c).
+Proof.
+  intros (Hks & Hle & Hinj).
+  pose proof (sort_mtime_perm (files s)) as P. set (L := sort_mtime (files s)) in *.
+  pose proof (ksorted_NoDup _ Hks) as NDf.
+  assert (NDL : NoDup (keys L)).
+  { eapply Permutation_NoDup; [apply Permutation_map, Permutation_sym, P | exact NDf]. }
+  assert (LK : forall k v, alookup k (files s) = Some v <-> In (k, v) L).
+  { intros k v. split; intros H.
+    - apply alookup_Some_In in H. eapply Permutation_in; [apply Permutation_sym, P | exact H].
+    - apply In_alookup; auto. eapply Permutation_in; [apply P | exact H]. }
+  assert (SL : ssorted (map emt L)).
+  { apply sort_mtime_ssorted. apply (NoDup_map_transfer emt fst); [exact NDf|].
+    intros [k1 [sz1 mt1]] [k2 [sz2 mt2]] H1 H2 E. unfold emt in E. simpl in *. subst mt2.
+    apply In_alookup in H1, H2; auto. eapply Hinj; eauto. }
+  destruct (reopen_J s c Hks) as (Hc & Hp & Hi & preF & F' & HF & HI & Hf). fold L in HF, Hf.
+  set (s' := reopen s c) in *.
+  assert (NDk : NoDup (keys (preF ++ F'))) by (rewrite <- HF; apply NoDup_map_filter; auto).
+  assert (A : forall k sz mt, In (k, (sz, mt)) F' -> alookup k (files s') = Some (sz, mt)).
+  { intros k sz mt Hin.
+    assert (Hin2 : In (k, (sz, mt)) (filter (keep c) L)) by (rewrite HF, in_app_iff; auto).
+    apply filter_In in Hin2 as [Hin2 Hkeep]. rewrite (proj2 (Hf k)); [apply LK; auto|].
+    intros [Hr|Hr].
+    - rewrite keys_app in NDk. eapply NoDup_app_disj; eauto. eapply In_keys; eauto.
+    - apply In_keys_inv in Hr as [v Hr]. apply filter_In in Hr as [Hr Hnk].
+      assert (v = (sz, mt)).
+      { apply In_alookup in Hr, Hin2; auto. congruence. }
+      subst v. unfold nkeep in Hnk. rewrite Hkeep in Hnk. discriminate. }
+  assert (B : forall k sz mt, alookup k (files s') = Some (sz, mt) -> In (k, (sz, mt)) F').
+  { intros k sz mt H.
+    destruct (in_dec key_eq_dec k (keys preF)) as [H1|H1].
+    { rewrite (proj1 (Hf k)) in H; [discriminate | left; auto]. }
+    destruct (in_dec key_eq_dec k (keys (filter (nkeep c) L))) as [H2|H2].
+    { rewrite (proj1 (Hf k)) in H; [discriminate | right; auto]. }
+    rewrite (proj2 (Hf k)) in H by (unfold removed; tauto). apply LK in H.
+    destruct (keep c (k, (sz, mt))) eqn:Ek.
+    - assert (Hin : In (k, (sz, mt)) (filter (keep c) L)) by (apply filter_In; auto).
+      rewrite HF, in_app_iff in Hin. destruct Hin as [Hin|Hin]; auto.
+      exfalso. apply H1. eapply In_keys; eauto.
+    - exfalso. apply H2. apply (In_keys k (sz, mt)). apply filter_In. split; auto.
+      unfold nkeep. rewrite Ek. auto. }
+  assert (BL : forall k sz mt, alookup k (files s') = Some (sz, mt) -> alookup k (files s) = Some (sz, mt)).
+  { intros k sz mt H. apply B in H. apply LK.
+    assert (Hin : In (k, (sz, mt)) (filter (keep c) L)) by (rewrite HF, in_app_iff; auto).
+    apply filter_In in Hin. tauto. }
+  split; [|split; [|split]].
+  - intros k sz. split.
+    + intros H. apply alookup_Some_In in H. rewrite HI in H. apply in_map_iff in H as ([k' [sz' mt]] & E & Hin).
+      unfold proj in E. simpl in E. injection E as -> ->. exists mt. apply A; auto.
+    + intros [mt H]. apply B in H. apply In_alookup; [apply Hi|]. rewrite HI.
+      apply (in_map proj) in H. exact H.
+  - intros k sz mt H. apply BL, Hle in H. pose proof (clock_reopen s c) as Ec. fold s' in Ec. rewrite Ec. auto.
+  - intros k1 k2 sz1 sz2 mt H1 H2. apply BL in H1, H2. eapply Hinj; eauto.
+  - unfold ord. rewrite HI, keys_proj. unfold keys. rewrite map_map.
+    assert (E : map (fun x => mtof (files s') (fst x)) F' = map emt F').
+    { apply map_ext_in. intros [k [sz mt]] Hin. simpl. unfold mtof. rewrite (A k sz mt Hin). reflexivity. }
+    rewrite E. apply (ssorted_map_filter emt (keep c)) in SL. rewrite HF, map_app in SL.
+    apply ssorted_app in SL. tauto.
+Qed.
+
+Lemma reopen_good s c : dir_ok s -> good (reopen s c).
+Proof.
+  intros H. split; [apply inv_reopen|]. split; [|apply reopen_disk_ok; auto].
+  apply (ks_step s (Reopen c)). apply H.
+Qed.
+
+Lemma good_dir_ok s : good s -> dir_ok s.
+Proof. intros (_ & Hk & (_ & Hle & Hinj & _)). repeat split; auto. Qed.
+
+Definition not_extdel (o : op) : Prop := match o with ExternalDelete _ => False | _ => True end.
+
+Lemma step_good s o : good s -> not_extdel o -> good (fst (step s o)).
+Proof.
+  intros Hg Hn. destruct o; try (exfalso; exact Hn);
+    try (destruct Hg as (Hi & Hk & Hd); split; [apply step_inv; auto|];
+         split; [apply ks_step; auto | apply step_disk_ok; simpl; auto]).
+  simpl. apply reopen_good, good_dir_ok, Hg.
+Qed.
+
+Lemma run_good ops : forall s, good s -> Forall not_extdel ops -> good (run s ops).
+Proof.
+  unfold run. induction ops as [|o r IH]; simpl; auto. intros s Hg Hf. inversion Hf; subst.
+  apply IH; auto. apply step_good; auto.
+Qed.
